@@ -48,7 +48,7 @@ _CTX = None
 def meta_for(ans, rnd, spell=REAL):
     k = ans["k"]
     if k == "redirect":
-        return "3%d %s" % (rnd.choice([0, 1]), spell[ans["to"]])
+        return "3%d %s" % (rnd.choice([0, 1, 0, 1, 2, 5, 9]), spell[ans["to"]])       # every 3x status is a redirect
     if k == "nongemini":
         return "30 " + rnd.choice(["https://example.com/", "http://h1.ex/a", "gopher://h1.ex/", "mailto:a@b", "titan://h1.ex/a;size=0",
                                    "geminix://h1.ex/", "Gemini://h1.ex/a", "//h1.ex/a"])
